@@ -774,20 +774,35 @@ impl LdapConnAsync {
                         self.searchmap.remove(&req_id);
                         let mut msgmap = self.msgmap.lock().expect("msgmap mutex (id_scrub)");
                         msgmap.1.remove(&req_id);
+                        #[cfg(ldap3_verif)]
+                        crate::verif::id_event("IdRelease", req_id, msgmap.0, "scrub");
+                        #[cfg(ldap3_verif)]
+                        crate::verif::drv_event("DrvScrub", req_id, "scrub", 0, true, &crate::verif::set(&msgmap.1), &crate::verif::keys(&self.resultmap), &crate::verif::keys(&self.searchmap));
                     }
                 },
                 op_tuple = self.rx.recv() => {
                     if let Some((id, op, tag, controls, tx)) = op_tuple {
+                        #[cfg(ldap3_verif)]
+                        let (verif_kind, verif_target) = match op {
+                            LdapOp::Single => ("single", 0i64),
+                            LdapOp::Search(_) => ("search", 0),
+                            LdapOp::Abandon(t) => ("abandon", t as i64),
+                            LdapOp::Unbind => ("unbind", 0),
+                        };
                         if let LdapOp::Search(ref search_tx) = op {
                             self.searchmap.insert(id, search_tx.clone());
                         }
                         if let Err(e) = self.stream.send((id, tag, controls)).await {
                             warn!("socket send error: {}", e);
+                            #[cfg(ldap3_verif)]
+                            self.verif_drv("DrvOp", id, verif_kind, verif_target, false);
                             return Err(LdapError::from(e));
                         } else {
                             match op {
                                 LdapOp::Single => {
                                     self.resultmap.insert(id, tx);
+                                    #[cfg(ldap3_verif)]
+                                    self.verif_drv("DrvOp", id, verif_kind, verif_target, true);
                                     continue;
                                 },
                                 LdapOp::Search(_) => (),
@@ -796,6 +811,8 @@ impl LdapConnAsync {
                                     self.searchmap.remove(&msgid);
                                     let mut msgmap = self.msgmap.lock().expect("msgmap mutex (abandon)");
                                     msgmap.1.remove(&id);
+                                    #[cfg(ldap3_verif)]
+                                    crate::verif::id_event("IdRelease", id, msgmap.0, "abandon");
                                 },
                                 LdapOp::Unbind => {
                                     if let Err(e) = self.stream.get_mut().shutdown().await {
@@ -809,6 +826,8 @@ impl LdapConnAsync {
                             if let Err(e) = tx.send((Tag::Null(Null { ..Default::default() }), vec![])) {
                                 warn!("ldap null result send error: {:?}", e);
                             }
+                            #[cfg(ldap3_verif)]
+                            self.verif_drv("DrvOp", id, verif_kind, verif_target, true);
                         }
                     } else {
                         break;
@@ -842,6 +861,10 @@ impl LdapConnAsync {
                         },
                         Some(Ok(resp)) => resp,
                     };
+                    #[cfg(ldap3_verif)]
+                    let verif_tag = if let Tag::StructureTag(ref t) = tag { t.id as i64 } else { -1 };
+                    #[cfg(ldap3_verif)]
+                    let (mut verif_route, mut verif_delivered) = ("none", false);
                     if let Some(tx) = self.searchmap.get(&id) {
                         let protoop = if let Tag::StructureTag(protoop) = tag {
                             protoop
@@ -854,22 +877,44 @@ impl LdapConnAsync {
                             19 => (SearchItem::Referral(protoop), false),
                             _ => panic!("unrecognized op id: {}", protoop.id),
                         };
+                        #[cfg(ldap3_verif)]
+                        {
+                            verif_route = "search";
+                            verif_delivered = true;
+                        }
                         if let Err(e) = tx.send((item, controls)) {
                             warn!("ldap search item send error, op={}: {:?}", id, e);
                             remove = true;
+                            #[cfg(ldap3_verif)]
+                            {
+                                verif_delivered = false;
+                            }
                         }
                         if remove {
                             self.searchmap.remove(&id);
                         }
                     } else if let Some(tx) = self.resultmap.remove(&id) {
+                        #[cfg(ldap3_verif)]
+                        {
+                            verif_route = "result";
+                            verif_delivered = true;
+                        }
                         if let Err(e) = tx.send((tag, controls)) {
                             warn!("ldap result send error: {:?}", e);
+                            #[cfg(ldap3_verif)]
+                            {
+                                verif_delivered = false;
+                            }
                         }
                         let mut msgmap = self.msgmap.lock().expect("msgmap mutex (stream rx)");
                         msgmap.1.remove(&id);
+                        #[cfg(ldap3_verif)]
+                        crate::verif::id_event("IdRelease", id, msgmap.0, "result");
                     } else {
                         warn!("unmatched id: {}", id);
                     }
+                    #[cfg(ldap3_verif)]
+                    self.verif_drv("DrvRecv", id, verif_route, verif_tag, verif_delivered);
                 },
             };
             if let LoopMode::SingleOp = mode {
@@ -882,6 +927,23 @@ impl LdapConnAsync {
 
 #[cfg(ldap3_verif)]
 impl LdapConnAsync {
+    fn verif_drv(&self, ev: &str, id: RequestId, kind: &str, target: i64, flag: bool) {
+        let used = {
+            let msgmap = self.msgmap.lock().expect("msgmap mutex (verif)");
+            crate::verif::set(&msgmap.1)
+        };
+        crate::verif::drv_event(
+            ev,
+            id,
+            kind,
+            target,
+            flag,
+            &used,
+            &crate::verif::keys(&self.resultmap),
+            &crate::verif::keys(&self.searchmap),
+        );
+    }
+
     /// Build a connection/handle pair over a caller-supplied in-process transport.
     pub fn verif_from_io(io: Box<dyn crate::verif::VerifIo>) -> (Self, Ldap) {
         Self::conn_pair(ConnType::Verif(io))
